@@ -1,11 +1,11 @@
 (** Source-level tie for C18 (and the building blocks of C03/C06/C07): the definitions GENERATED from
     frouros/utils/stats.py, frouros/utils/data_structures.py and frouros/metrics/prequential_error.py
-    (GStats.v, re-generated from /repo on every run by harness/py2coq.py) equal the hand-written models,
+    (GSrc.v, re-generated from /repo on every run by harness/py2coq.py) equal the hand-written models,
     for every number system; the property theorems are then re-stated over the generated definitions.
-    This file is compiled against the freshly generated GStats.v on every run of the check. *)
+    This file is compiled against the freshly generated GSrc.v on every run of the check. *)
 From Coq Require Import ZArith List Bool Lia Reals.
 From FV Require Import NumSys RealA Py Sums Queue Stats QueueRef StatsR.
-From FVG Require Import GStats.
+From FVG Require Import GSrc.
 Import ListNotations.
 
 (** hand-model state <-> the generated code's field tuple (field order = order of assignment in __init__) *)
